@@ -261,24 +261,47 @@ func c16PersistRule(e *c16Env) {
 					}
 				}
 			case *ast.ExprStmt:
-				if call, ok := s.X.(*ast.CallExpr); ok && calleeFull(f, call) == "builtin.delete" && len(call.Args) == 2 && c16Sel(f, call.Args[0], e.topicsF) {
-					return true
+				if call, ok := s.X.(*ast.CallExpr); ok {
+					if calleeFull(f, call) == "builtin.delete" && len(call.Args) == 2 && c16Sel(f, call.Args[0], e.topicsF) {
+						return true
+					}
+					// the map itself handed to a function value / helper that changes it
+					// (`update(s.info.Topics)`): from here on the stored copy may be stale
+					if _, isBuiltin := f.Callee(call).(*types.Builtin); !isBuiltin {
+						for _, a := range call.Args {
+							if c16Sel(f, a, e.topicsF) {
+								return true
+							}
+						}
+					}
 				}
 			}
 			return false
 		}
 		muts := 0
-		ast.Inspect(f.Body, func(n ast.Node) bool {
-			if isMut(n) {
-				muts++
+		for _, g := range reach(f, 2) {
+			if fd, ok := g.Node.(*ast.FuncDecl); ok && g.Body != f.Body && !c16RecvIs(fd, "Session") {
+				continue // helpers of the session only
 			}
-			return true
-		})
+			ast.Inspect(g.Body, func(n ast.Node) bool {
+				if isMut(n) {
+					muts++
+				}
+				return true
+			})
+		}
 		if !c.RequireCount("R-C16-6", "changes of info.Topics in Session."+m, muts, 1) {
 			continue
 		}
 		const evDirty = "ev:c16dirty"
-		res := analyze(c, f, flow.Config{NoHavoc: true,
+		res := analyze(c, f, flow.Config{NoHavoc: true, InlineClosures: true,
+			Inline: e.inlineWhere(f, func(g *flow.Func, n ast.Node) bool {
+				if isMut(n) {
+					return true
+				}
+				call, ok := n.(*ast.CallExpr)
+				return ok && c16Is(g, call, "(*"+mq+".Session).store")
+			}),
 			OnNode: func(st *flow.State, n ast.Node) {
 				if isMut(n) {
 					st.Set(evDirty, flow.True)
